@@ -32,7 +32,7 @@ macro_rules! flavour_impl {
             match a[0].as_str().unwrap() {
                 "connect" => { nodes[us(&a[1])].connect(&nodes[us(&a[2])], i6(&a[3])); json!("ok") }
                 "try_connect" => match nodes[us(&a[1])].try_connect(&nodes[us(&a[2])], i6(&a[3])) { Ok(()) => json!("ok"), Err(e) => json!(format!("err:{:?}", e)) },
-                "disconnect" => match nodes[us(&a[1])].disconnect(&us(&a[2])) { Ok(x) => json!(["ok", x]), Err(e) => json!(format!("err:{:?}", e)) },
+                "disconnect" => match nodes[us(&a[1])].disconnect(&ky(&a[2])) { Ok(x) => json!(["ok", x]), Err(e) => json!(format!("err:{:?}", e)) },
                 "isolate" => { nodes[us(&a[1])].isolate(); json!("ok") }
                 "degq" => { let n = &nodes[us(&a[1])]; sel!($kind, { json!([n.out_degree(), n.in_degree()]) }, { json!([n.degree()]) }) }
                 "search" => {
@@ -58,7 +58,7 @@ macro_rules! flavour_impl {
                 let kind = a[0].as_str().unwrap();
                 match kind {
                     "clone" => return self.handle(&a[1]).clone(),
-                    "graph" => return self.graph.as_ref().unwrap().get(&us(&a[1])).unwrap(),
+                    "graph" => return self.graph.as_ref().unwrap().get(&ky(&a[1])).unwrap(),
                     "found" => {
                         let base = self.handle(&a[1]);
                         let k = *self.nodes[us(&a[2])].key();
@@ -71,14 +71,14 @@ macro_rules! flavour_impl {
                     match kind {
                         "out" => self.handle(&a[1]).iter_out().nth(us(&a[2])).unwrap().1.clone(),
                         "in" => self.handle(&a[1]).iter_in().nth(us(&a[2])).unwrap().0.clone(),
-                        "find_out" => self.handle(&a[1]).find_outbound(&us(&a[2])).unwrap(),
-                        "find_in" => self.handle(&a[1]).find_inbound(&us(&a[2])).unwrap(),
+                        "find_out" => self.handle(&a[1]).find_outbound(&ky(&a[2])).unwrap(),
+                        "find_in" => self.handle(&a[1]).find_inbound(&ky(&a[2])).unwrap(),
                         x => panic!("handle kind {}", x),
                     }
                 }, {
                     match kind {
                         "adj" => self.handle(&a[1]).iter().nth(us(&a[2])).unwrap().1.clone(),
-                        "find_adj" => self.handle(&a[1]).find_adjacent(&us(&a[2])).unwrap(),
+                        "find_adj" => self.handle(&a[1]).find_adjacent(&ky(&a[2])).unwrap(),
                         x => panic!("handle kind {}", x),
                     }
                 })
@@ -148,7 +148,7 @@ macro_rules! flavour_impl {
                 let mut order: Vec<K> = vec![];
                 if !doc["nodes"].is_null() {
                     if doc["nodes"].as_str() == Some("err") { outer.push(json!("ill-typed")); } else {
-                        for r in doc["nodes"].as_array().unwrap() { let k = us(&r[0]); if !order.contains(&k) { order.push(k); } }
+                        for r in doc["nodes"].as_array().unwrap() { let k = ky(&r[0]); if !order.contains(&k) { order.push(k); } }
                         outer.push(doc["nodes"].clone());
                     }
                     if !doc["edges"].is_null() {
@@ -568,16 +568,16 @@ macro_rules! flavour_impl {
                     }
                     "cmp_nodes" => {
                         // [ka, kb, va, vb]: comparison traits of two fresh nodes (replay of a Kani counterexample)
-                        let x: Node<K, N, E> = Node::new(us(&a[1]), Tracked { v: i6(&a[3]), id: 0 });
-                        let y: Node<K, N, E> = Node::new(us(&a[2]), Tracked { v: i6(&a[4]), id: 0 });
+                        let x: Node<K, N, E> = Node::new(ky(&a[1]), Tracked { v: i6(&a[3]), id: 0 });
+                        let y: Node<K, N, E> = Node::new(ky(&a[2]), Tracked { v: i6(&a[4]), id: 0 });
                         let ord = |o: std::cmp::Ordering| o as i8;
                         json!({"eq": x == y, "ne": x != y, "cmp": ord(x.cmp(&y)), "partial_cmp": x.partial_cmp(&y).map(ord),
                                "lt": x < y, "le": x <= y, "gt": x > y, "ge": x >= y})
                     }
                     "edge_reverse" => {
                         // [ka, kb, e]: Edge(a, b, e).reverse()
-                        let x: Node<K, N, E> = Node::new(us(&a[1]), Tracked { v: 0, id: 0 });
-                        let y: Node<K, N, E> = Node::new(us(&a[2]), Tracked { v: 0, id: 0 });
+                        let x: Node<K, N, E> = Node::new(ky(&a[1]), Tracked { v: 0, id: 0 });
+                        let y: Node<K, N, E> = Node::new(ky(&a[2]), Tracked { v: 0, id: 0 });
                         let e = Edge(x.clone(), y.clone(), i6(&a[3]));
                         let r = e.reverse();
                         json!({"reversed": [*r.source().key(), *r.target().key(), *r.value()], "original": [*e.source().key(), *e.target().key(), *e.value()]})
@@ -599,7 +599,7 @@ macro_rules! flavour_impl {
                         }
                     }
                     "disconnect" => {
-                        let k = us(&a[2]);
+                        let k = ky(&a[2]);
                         match self.with_handle(&a[1], |u| u.disconnect(&k)) {
                             Ok(x) => json!(["ok", x]),
                             Err(err) => json!(format!("err:{:?}", err)),
@@ -637,7 +637,7 @@ macro_rules! flavour_impl {
                 let op = a[0].as_str().unwrap();
                 if op == "drop" {
                     let i = us(&a[1]);
-                    let dummy = Node::new(usize::MAX - i, Tracked { v: 0, id: 0 });
+                    let dummy = Node::new(K::from(usize::MAX - i), Tracked { v: 0, id: 0 });
                     let old = std::mem::replace(&mut self.nodes[i], dummy);
                     drop(old);
                     return json!("ok");
@@ -689,19 +689,19 @@ macro_rules! flavour_impl {
                     return Self::deserialize_doc(&a[1]);
                 }
                 if op == "g_remove" {
-                    let r = self.graph.as_mut().unwrap().remove(&us(&a[1]));
+                    let r = self.graph.as_mut().unwrap().remove(&ky(&a[1]));
                     return match r { Some(n) => self.node_obs(&n), None => Value::Null };
                 }
                 let g = self.graph.as_ref().unwrap();
                 match op {
-                    "g_get" => match g.get(&us(&a[1])) { Some(n) => self.node_obs(&n), None => Value::Null },
+                    "g_get" => match g.get(&ky(&a[1])) { Some(n) => self.node_obs(&n), None => Value::Null },
                     "g_index" => {
                         let by_ref = a.get(2).and_then(|x| x.as_bool()).unwrap_or(false);
-                        let k = us(&a[1]);
+                        let k = ky(&a[1]);
                         let n = sel!($kind, { if by_ref { &g[&k] } else { &g[k] } }, { &g[k] });
                         self.node_obs(n)
                     }
-                    "g_contains" => json!(g.contains(&us(&a[1]))),
+                    "g_contains" => json!(g.contains(&ky(&a[1]))),
                     "g_len" => json!(g.len()),
                     "g_is_empty" => json!(g.is_empty()),
                     "g_to_vec" => json!(g.to_vec().iter().map(|n| self.alias_of(n)).collect::<Vec<_>>()),
@@ -741,7 +741,7 @@ macro_rules! flavour_impl {
             for kv in scen["nodes"].as_array().unwrap() {
                 let t = Tracked::new(i6(&kv[1]));
                 w.ids.push(t.id);
-                w.nodes.push(Node::new(us(&kv[0]), t));
+                w.nodes.push(Node::new(ky(&kv[0]), t));
             }
             for st in scen["steps"].as_array().unwrap() {
                 let r = catch_unwind(AssertUnwindSafe(|| w.step(st)));
